@@ -494,6 +494,7 @@ class Client(base_client.BaseClient):
             self.logger.info('Waiting for write loop task to end')
             self.write_loop_task.join()
         if self.state == 'connected':
+            self.state = 'disconnecting'
             self._trigger_event('disconnect', self.reason.TRANSPORT_ERROR,
                                 run_async=False)
             try:
@@ -545,6 +546,7 @@ class Client(base_client.BaseClient):
             self.logger.info('Waiting for write loop task to end')
             self.write_loop_task.join()
         if self.state == 'connected':
+            self.state = 'disconnecting'
             self._trigger_event('disconnect', self.reason.TRANSPORT_ERROR,
                                 run_async=False)
             try:
